@@ -6,7 +6,9 @@ LEVEL = "other"
 FUNCTIONS = ["PortfolioSpace.null_action", "PortfolioSpace.make_rebalancing_request", "TradingEnv.step", "body:Transmitter._create_partitions#0"]
 from shell import c08
 SHELL = [c08.timing]
-REPLAYERS = [("PortfolioSpace.null_action::ensures::in_space", replayers.null_action_in_space)]
+REPLAYERS = [
+    ("Transmitter._create_partitions::loop0::body", replayers.partition_slot),
+("PortfolioSpace.null_action::ensures::in_space", replayers.null_action_in_space)]
 FOLLOW_ON = {"PortfolioSpace.null_action::ensures::is_action_zero": "PortfolioSpace.null_action::ensures::in_space"}
 LEVEL_TEXT = ("Deductive kernel: TradingEnv.step is executed symbolically with a delay line of symbolic length d: the action handed to "
               "make_rebalancing_request is the one at the back of the queue (the submitted one when d = 0), the queue is shifted by exactly "
